@@ -6,11 +6,21 @@ import os
 VERIF = os.path.dirname(os.path.dirname(os.path.abspath(__file__)))
 S = os.path.join(VERIF, "seeded")
 rows = []
+harmless = []
 for n in sorted(os.listdir(S)):
     mp = os.path.join(S, n, "meta.json")
     if not os.path.exists(mp):
         continue
     m = json.load(open(mp))
+    if m.get("harmless"):
+        det = m.get("detection", {}).get("quick", {})
+        res = []
+        for p_, c in det.get("checks", {}).items():
+            noin = "no-failing-input-found" in " ".join(c.get("violations") or [])
+            res.append("%s: %s" % (p_, "exit 0" if c["exit"] == 0 else ("VIOLATION, no failing input" if noin else "exit %s" % c["exit"])))
+        harmless.append("| %s | %s | %s | %s |" % (n, ",".join(m["property"]), (m.get("summary") or "").replace("|", "/").replace("\n", " ")[:220],
+                                               "; ".join(res) or "pending"))
+        continue
     prop = m["property"] if isinstance(m["property"], str) else ",".join(m["property"])
     conf = m.get("confirmed", {})
     det = m.get("detection", {}).get("quick", {})
@@ -30,3 +40,10 @@ for n in sorted(os.listdir(S)):
 print("| seed | property | change (one line) | confirmed (suite passes, demo fails only with it) | detected (quick) | by |")
 print("|---|---|---|---|---|---|")
 print("\n".join(rows))
+if harmless:
+    print()
+    print("Behaviour-preserving refactorings (expected: every check exits 0):")
+    print()
+    print("| patch | checks run | refactoring | result |")
+    print("|---|---|---|---|")
+    print("\n".join(harmless))
